@@ -270,6 +270,19 @@ fn single_frame_cases(frames: &[Frame], classes: &[String], rng: &mut Rng, thoro
                 push("crc", vec![Op::Xor { file, off: off + byte, mask: 1 << rng.below(8) }]);
             }
             push("crc", vec![Op::Write { file, off, bytes: garbage(rng, 4) }]);
+            // a sentinel checksum (erased field) over a payload that no longer matches it: no value of the
+            // field may stand for "not checked" (M203)
+            if pay > 0 {
+                let sentinels: &[u8] = if thorough { &[0x00, 0xff] } else { &[0x00] };
+                for &fill in sentinels {
+                    let mut spots = vec![0, pay - 1];
+                    spots.dedup();
+                    for spot in spots {
+                        push("crc", vec![Op::Write { file, off, bytes: vec![fill; 4] },
+                                         Op::Xor { file, off: off + 7 + spot, mask: 1 << rng.below(8) }]);
+                    }
+                }
+            }
             if thorough {
                 for bit in 0..32 {
                     push("crc", vec![Op::Xor { file, off: off + bit / 8, mask: 1 << (bit % 8) }]);
